@@ -7,6 +7,7 @@ pub mod c03;
 pub mod c08;
 pub mod c09;
 pub mod c02;
+pub mod c06;
 pub mod c11;
 pub mod c12;
 pub mod features;
@@ -39,6 +40,7 @@ impl Monitors {
                 "C12" => v.push(Box::new(c12::C12::new(p))),
                 "C02" => v.push(Box::new(c02::C02::new(p))),
                 "C11" => v.push(Box::new(c11::C11::new(p))),
+                "C06" => v.push(Box::new(c06::C06::new(p))),
                 other => panic!("unknown monitor {other}"),
             }
         }
